@@ -3,11 +3,15 @@ package c11
 import (
 	"encoding/json"
 	"fmt"
+	"hash/fnv"
 	"net/http"
 	"net/url"
+	"os"
+	"path/filepath"
 	"regexp"
 	"sort"
 	"strings"
+	"sync"
 	"testing"
 
 	"github.com/php-any/origami/data"
@@ -31,14 +35,49 @@ type Handler struct {
 	Method string  `json:"method"`
 	Blocks []Block `json:"blocks"`
 	Status bool    `json:"status,omitempty"` // sets status 200+k and an echo header
+	File   int     `json:"file,omitempty"`   // >0: answers with $res->file() of fixture file number File (the text goes into a header)
+}
+
+// fixture files served by $res->file(): from one to several io.Copy chunks
+var fileSizes = []int{0, 100, 33000, 70000, 200000}
+
+func filePath(k int) string {
+	return filepath.Join(filepath.Dir(os.Args[0]), "c11files", fmt.Sprintf("f%d.bin", k))
+}
+
+func fileBody(k int) string {
+	var b strings.Builder
+	for b.Len() < fileSizes[k] {
+		fmt.Fprintf(&b, "F%d@%07d\n", k, b.Len())
+	}
+	return b.String()[:fileSizes[k]]
+}
+
+var filesOnce sync.Once
+
+func ensureFiles() {
+	filesOnce.Do(func() {
+		os.MkdirAll(filepath.Dir(filePath(1)), 0o755)
+		for k := 1; k < len(fileSizes); k++ {
+			if st, err := os.Stat(filePath(k)); err == nil && st.Size() == int64(fileSizes[k]) {
+				continue // another worker of this batch wrote it
+			}
+			tmp := fmt.Sprintf("%s.%d", filePath(k), os.Getpid())
+			if err := os.WriteFile(tmp, []byte(fileBody(k)), 0o644); err != nil {
+				panic(err)
+			}
+			os.Rename(tmp, filePath(k))
+		}
+	})
 }
 
 type Req struct {
 	H       int    `json:"h"`
 	X       string `json:"x"`
 	K       int    `json:"k"`
-	AbortAt int    `json:"abort_at"`             // block index before which the handler throws (-1: never)
-	FailW   bool   `json:"fail_write,omitempty"` // client write error on this request
+	AbortAt int    `json:"abort_at"`              // block index before which the handler throws (-1: never)
+	FailW   bool   `json:"fail_write,omitempty"`  // client write error on this request
+	Slow    bool   `json:"slow_client,omitempty"` // slow client: the server task parks in every body write
 }
 
 type W struct {
@@ -116,6 +155,9 @@ func gen(r *verifsim.Rng, tier string) (any, hx.Sched) {
 			}
 			hd.Blocks = append(hd.Blocks, bl)
 		}
+		if !depthRun && r.Intn(5) == 0 {
+			hd.File = 1 + r.Intn(len(fileSizes)-1)
+		}
 		w.Handlers = append(w.Handlers, hd)
 	}
 	w.MW = verifsim.Pick(r, []int{0, 0, 0, 1, 2})
@@ -125,6 +167,7 @@ func gen(r *verifsim.Rng, tier string) (any, hx.Sched) {
 	}
 	for i := 0; i < nr; i++ {
 		q := Req{H: r.Intn(nh), X: fmt.Sprintf("v%d", i), K: 1 + r.Intn(5), AbortAt: -1}
+		q.Slow = r.Intn(3) == 0 || (w.Handlers[q.H].File > 0 && r.Intn(2) == 0)
 		w.Reqs = append(w.Reqs, q)
 	}
 	// faults: at most one aborted and one write-failed request per run, in a subset of runs
@@ -208,6 +251,18 @@ func shrink(x any) []any {
 			c.Reqs[i].FailW = false
 			out = append(out, c)
 		}
+		if w.Reqs[i].Slow {
+			c := cp()
+			c.Reqs[i].Slow = false
+			out = append(out, c)
+		}
+	}
+	for h := range w.Handlers {
+		if w.Handlers[h].File > 1 {
+			c := cp()
+			c.Handlers[h].File--
+			out = append(out, c)
+		}
 	}
 	return out
 }
@@ -287,7 +342,11 @@ $server = new Server('127.0.0.1', 0);
 		if hd.Status {
 			b.WriteString("  $res->status(200 + $k);\n  $res->header(\"X-Echo\", $req->header(\"X-T\"));\n")
 		}
-		b.WriteString("  $res->write($out);\n});\n")
+		if hd.File > 0 {
+			fmt.Fprintf(&b, "  $res->header(\"X-Out\", $out);\n  $res->file(%q, \"dl-\" . $req->header(\"X-T\") . \".bin\");\n});\n", filePath(hd.File))
+		} else {
+			b.WriteString("  $res->write($out);\n});\n")
+		}
 	}
 	return b.String()
 }
@@ -313,21 +372,33 @@ type obs struct {
 	Body   string
 	Panic  string
 	Codes  []int
+	xout   string // value of the X-Out header (file handlers)
 }
 
 func (o obs) String() string {
-	return fmt.Sprintf("status=%d commits=%v hdr=%s body=%q panic=%q err=%q", o.Status, o.Codes, o.Hdr, o.Body, o.Panic, o.Err)
+	body := o.Body
+	if len(body) > 3000 { // long bodies: head, tail, length and hash (still decides equality)
+		body = fmt.Sprintf("%s…%s (%d bytes, fnv %x)", body[:300], body[len(body)-100:], len(body), fnv64(body))
+	}
+	return fmt.Sprintf("status=%d commits=%v hdr=%s body=%q panic=%q err=%q", o.Status, o.Codes, o.Hdr, body, o.Panic, o.Err)
+}
+
+func fnv64(s string) uint64 {
+	h := fnv.New64a()
+	h.Write([]byte(s))
+	return h.Sum64()
 }
 
 func observe(c *hx.SimConn, p any) obs {
 	o := obs{Status: c.Status(), Body: c.Body.String(), Codes: c.CommitCodes()}
 	h := http.Header{}
 	for k, v := range c.SentHeader() {
-		if strings.HasPrefix(k, "X-") || k == "Content-Type" {
+		if strings.HasPrefix(k, "X-") || k == "Content-Type" || k == "Content-Disposition" {
 			h[k] = v
 		}
 	}
 	o.Hdr = hx.HeaderString(h)
+	o.xout = c.SentHeader().Get("X-Out")
 	if p != nil {
 		if ctl, ok := p.(data.Control); ok {
 			o.Panic = ptrRe.ReplaceAllString(firstLine(hx.CtlStr(ctl)), "0x…")
@@ -387,6 +458,7 @@ func serveOne(w *W, mux *http.ServeMux, i int) obs {
 	if w.Reqs[i].FailW {
 		c.FailWriteAt = 1
 	}
+	c.Stall = w.Reqs[i].Slow
 	p := hx.Serve(mux, c, request(w, i))
 	return observe(c, p)
 }
@@ -394,6 +466,7 @@ func serveOne(w *W, mux *http.ServeMux, i int) obs {
 func exec(t *testing.T, x any, s hx.Sched) *hx.Outcome {
 	w := x.(*W)
 	o := &hx.Outcome{}
+	ensureFiles()
 	src := script(w)
 	// solo oracle: a second fresh interpreter serves the same requests strictly one at a time
 	verifsim.SetMapConfig(&verifsim.MapConfig{Mode: verifsim.MapSorted})
@@ -422,9 +495,12 @@ func exec(t *testing.T, x any, s hx.Sched) *hx.Outcome {
 		if w.Reqs[i].AbortAt < 0 && !w.Reqs[i].FailW {
 			ok := solo[i].Panic == "" && solo[i].Err == ""
 			for bi := range w.Handlers[w.Reqs[i].H].Blocks {
-				if !strings.Contains(solo[i].Body, fmt.Sprintf("b%d.", bi)) {
+				if !strings.Contains(solo[i].Body+solo[i].Hdr, fmt.Sprintf("b%d.", bi)) {
 					ok = false
 				}
+			}
+			if f := w.Handlers[w.Reqs[i].H].File; f > 0 && solo[i].Body != fileBody(f) {
+				ok = false
 			}
 			if !ok {
 				o.Violate("C11/harness-setup", fmt.Sprintf("a generated handler does not run to completion when served alone: %s; script: %s", solo[i], src))
@@ -515,6 +591,12 @@ func exec(t *testing.T, x any, s hx.Sched) *hx.Outcome {
 				msg = "solo-only: " + fb
 			}
 			o.Violate("C11/failed-only-when-concurrent/"+normMsg(msg), detail)
+		case a.xout != b.xout: // file handlers carry their text in a header
+			for _, k := range diffSegments(a.xout, b.xout) {
+				o.Violate("C11/segment/"+k, detail)
+			}
+		case a.Body != b.Body && w.Handlers[w.Reqs[i].H].File > 0:
+			o.Violate("C11/file-body", detail)
 		case a.Body != b.Body:
 			for _, k := range diffSegments(a.Body, b.Body) {
 				o.Violate("C11/segment/"+k, detail)
